@@ -15,6 +15,7 @@ import operator
 from copy import copy
 from collections.abc import Iterator
 from decimal import Decimal, DivisionByZero, InvalidOperation
+from fractions import Fraction
 from typing import cast, NoReturn
 
 import elementpath.aliases as ta
@@ -648,7 +649,7 @@ def evaluate__idiv_operator(self: XPathToken, context: ta.ContextType = None) ->
         if isinstance(op1, float) or isinstance(op2, float):
             return int(op1 / op2)  # ($a div $b) cast as xs:integer
         elif isinstance(op1, Decimal) or isinstance(op2, Decimal):
-            return int(op1 // op2)  # the floor division of decimals truncates
+            return int(Fraction(op1) / Fraction(op2))  # exact, truncated toward zero
         result = abs(op1) // abs(op2)
         return int(result if (op1 < 0) == (op2 < 0) else -result)
     except (ZeroDivisionError, DivisionByZero, InvalidOperation):
